@@ -94,6 +94,14 @@ func ScopeMiddleware(provider godi.Provider, opts ...Option) fiber.Handler {
 		opt(cfg)
 	}
 
+	// A nil handler means the default one
+	if cfg.ErrorHandler == nil {
+		cfg.ErrorHandler = defaultConfig().ErrorHandler
+	}
+	if cfg.CloseErrorHandler == nil {
+		cfg.CloseErrorHandler = defaultConfig().CloseErrorHandler
+	}
+
 	return func(c *fiber.Ctx) error {
 		scope, err := provider.CreateScope(c.UserContext())
 		if err != nil {
